@@ -1,5 +1,5 @@
 SPECIFICATION Spec
-CONSTANTS Tx = {"t1", "t2", "t3"}
+CONSTANTS Tx = {"t1", "t2"}
           MaxH = 1
           MAXTX = 1
           CAP = 2
